@@ -654,4 +654,8 @@ b("c18-copy-memo-not-consulted", "C18", "pyformlang/fcfg/feature_structure.py",
 p("c18-p-copy-memo-get", "C18", "pyformlang/fcfg/feature_structure.py",
   "        if self in already_copied:\n            return already_copied[self]\n",
   "        known = already_copied.get(self)\n        if known is not None:\n            return known\n")
+b("fx-f37", "C15", "pyformlang/cfg/parse_tree.py",
+  "            end = son_result + end\n", "            end = derivation + end\n", "derivation-siblings-agree")
+p("c15-p-derivation-extend", "C15", "pyformlang/cfg/parse_tree.py",
+  "            start = start + son_result\n", "            start = list(start)\n            start.extend(son_result)\n")
 VARIANTS = V
